@@ -227,7 +227,7 @@ CHECKS["C10"] = dict(
     deadline={"quick": 120, "thorough": 1200},
     rule="headers: all pairs over a 31-value boundary alphabet through Pack/Unpack (function and macro), all 72 (rows width, "
          "cols width) combinations x {min, min+1, max-1, max} through PairDimension/PairEncode into an exact-size guard buffer, "
-         "all (x, y, sparse) through PAIR/DEPAIR; cells: rows in {0,1,2,3,255,256} x cols in {1,2,7,8,9,255,256,300} plus "
+         "all (x, y, sparse) through PAIR/DEPAIR; cells: rows in {0,1,2,3,5,16,17,255,256,257} x cols in {1,2,3,7,8,9,15,16,17,255,256,257,300} plus "
          "column counts of every width 2-8 (row 0 region) x entry kind in {bit set/clear/toggle, unsigned 1-8 bytes, float, "
          "double, half (native build)} x every cell (all cells up to 600, boundary cells beyond) x value alphabet x 2 "
          "backgrounds; histories: full reachability of 2x3 / 3x3 bit matrices and a 2x2 byte matrix; class = (kind, rows width, "
@@ -247,8 +247,8 @@ CHECKS["C07"] = dict(
     deadline={"quick": 150, "thorough": 1500},
     rule="double alphabet D = {sign} x {20 biased exponents incl. 0, 1, 1022-1024, 2046, 2047} x {~200 mantissas: 0, 1, all-ones, "
          "top-k-ones, top-k-ones-zero-ones, half-way patterns +-1 around the rounding position of each precision, patterns that "
-         "carry out of the mantissa}; arrays: all singletons, all ordered pairs over a 60/150-value sub-alphabet, all triples over "
-         "12/24 values, stride windows of length 9/17/64; x 4 precisions x 3 exponent modes; EncodeAuto: 30 requested errors "
+         "carry out of the mantissa}; arrays: all singletons, all ordered pairs over a ~90/~90-value sub-alphabet (every exponent class x 4 mantissas + specials), all triples over "
+         "~30 values, stride windows of length 9/17/64; x 4 precisions x 3 exponent modes; EncodeAuto: 30 requested errors "
          "(just below / at / above every mode bound and threshold) x singletons and pairs; class = (array shape, exponent class / "
          "exponent distance class / requested error)",
     explanation="E-enum with an exact integer oracle: FULL and special values bit-identical; reduced precision |dec-x| <= 2^-m |x| "
@@ -259,7 +259,7 @@ CHECKS["C07"] = dict(
 )
 
 CHECKS["C18"] = dict(
-    name="c18", harness=["checks/c18.c", "engine/vmalloc.c"], wrap_malloc=True, engine="E-fault",
+    name="c18", harness=["checks/c18.c", "engine/vmalloc.c"], wrap_malloc=True, engine="E-fault", count_alloc_sites=True,
     libs=["varintDict.c", "varintPFOR.c", "varintFloat.c", "varintAdaptive.c", "varintBitmap.c", "varintTagged.c",
           "varintExternal.c", "varintDelta.c", "varintFOR.c"],
     configs={"quick": ["pinned"], "thorough": ["pinned", "debug"]},
